@@ -240,14 +240,20 @@ def _short(name, local=()):
   return name
 
 
-def norm(node, cls_stack=()):
+_COMPAT = (("int", "float"), ("int", "complex"), ("float", "complex"), ("bytearray", "bytes"),
+           ("memoryview", "bytes"))      # pep484._COMPAT_ITEMS
+
+
+def norm(node, cls_stack=(), inparam=False):
   """Normal form of a declaration tree that is invariant under the documented representation
   differences between an AST in the emitted (resolved) dialect and the AST the parser builds from
   its printed text: ClassType/NamedType/LateType all become names without the `builtins.` prefix;
   unions are flattened, de-duplicated and sorted; Optional is a union with NoneType; type
   parameter scopes and templates are dropped; literals are compared by printed value; `nothing`
   and typing.Never coincide; Callable[Any, R] written as GenericType is kept apart from
-  CallableType; declaration lists are sorted (the printer groups and CanonicalOrdering sorts)."""
+  CallableType; declaration lists are sorted (the printer groups and CanonicalOrdering sorts); inside a
+  parameter a union member that PEP 484 promotes to another member (int with float, ...) is
+  dropped - `x: float` means float | int there, and the printer writes it that way."""
   import enum
   import msgspec
   pytd = _pytd()
@@ -263,9 +269,13 @@ def norm(node, cls_stack=()):
   if isinstance(node, pytd.UnionType):
     ms = []
     for m in node.type_list:
-      x = norm(m, cls_stack)
+      x = norm(m, cls_stack, inparam)
       if x not in ms:
         ms.append(x)
+    if inparam:
+      for compat, name in _COMPAT:
+        if ["name", compat] in ms and ["name", name] in ms:
+          ms.remove(["name", compat])
     ms.sort(key=json.dumps)
     return ["union"] + ms if len(ms) > 1 else ms[0]
   if isinstance(node, pytd.Literal):
@@ -281,50 +291,50 @@ def norm(node, cls_stack=()):
     if isinstance(v, str):
       # output.py stores enum-member ints as the string '1'; strings as their repr
       return ["lit", "int", v] if v.lstrip("-").isdigit() else ["lit", "str", v]
-    return ["lit", "type", norm(v, cls_stack)]
+    return ["lit", "type", norm(v, cls_stack, inparam)]
   if isinstance(node, pytd.TypeParameter):
-    return [type(node).__name__, node.name, norm(node.constraints, cls_stack),
-            norm(node.bound, cls_stack) if node.bound is not None else ["None"]]
+    return [type(node).__name__, node.name, norm(node.constraints, cls_stack, inparam),
+            norm(node.bound, cls_stack, inparam) if node.bound is not None else ["None"]]
   if isinstance(node, pytd.TemplateItem):
     return ["tmpl", node.name]
   if isinstance(node, pytd.Signature):
-    return ["sig", norm(node.params, cls_stack),
-            norm(node.starargs, cls_stack) if node.starargs is not None else ["None"],
-            norm(node.starstarargs, cls_stack) if node.starstarargs is not None else ["None"],
-            norm(node.return_type, cls_stack), norm(node.exceptions, cls_stack)]
+    return ["sig", norm(node.params, cls_stack, inparam),
+            norm(node.starargs, cls_stack, inparam) if node.starargs is not None else ["None"],
+            norm(node.starstarargs, cls_stack, inparam) if node.starstarargs is not None else ["None"],
+            norm(node.return_type, cls_stack, inparam), norm(node.exceptions, cls_stack, inparam)]
   if isinstance(node, pytd.Parameter):
-    return ["param", node.name, norm(node.type, cls_stack), node.kind.name, bool(node.optional),
-            norm(node.mutated_type, cls_stack) if node.mutated_type is not None else ["None"]]
+    return ["param", node.name, norm(node.type, cls_stack, True), node.kind.name, bool(node.optional),
+            norm(node.mutated_type, cls_stack, inparam) if node.mutated_type is not None else ["None"]]
   if isinstance(node, pytd.Function):
     flags = sorted(f.name for f in pytd.MethodFlag if f in node.flags and f.name != "NONE")
     return ["func", node.name.rsplit(".", 1)[-1], node.kind.name, flags,
-            ["()"] + [norm(s, cls_stack) for s in node.signatures]]
+            ["()"] + [norm(s, cls_stack, inparam) for s in node.signatures]]
   if isinstance(node, pytd.Class):
-    bases = [norm(b, cls_stack) for b in node.bases]
+    bases = [norm(b, cls_stack, inparam) for b in node.bases]
     if bases == [["name", "object"]]:
       bases = []
     return ["class", node.name.rsplit(".", 1)[-1], bases,
-            [[k, norm(v, cls_stack)] for k, v in node.keywords],
-            sorted((norm(m, cls_stack) for m in node.methods), key=json.dumps),
-            sorted((norm(c, cls_stack) for c in node.constants), key=json.dumps),
-            sorted((norm(c, cls_stack) for c in node.classes), key=json.dumps),
+            [[k, norm(v, cls_stack, inparam)] for k, v in node.keywords],
+            sorted((norm(m, cls_stack, inparam) for m in node.methods), key=json.dumps),
+            sorted((norm(c, cls_stack, inparam) for c in node.constants), key=json.dumps),
+            sorted((norm(c, cls_stack, inparam) for c in node.classes), key=json.dumps),
             sorted(node.slots) if node.slots is not None else ["None"]]
   if isinstance(node, pytd.Constant):
-    return ["const", node.name, norm(node.type, cls_stack), node.value is not None]
+    return ["const", node.name, norm(node.type, cls_stack, inparam), node.value is not None]
   if isinstance(node, pytd.Alias):
-    return ["alias", node.name, norm(node.type, cls_stack)]
+    return ["alias", node.name, norm(node.type, cls_stack, inparam)]
   if isinstance(node, pytd.Module):
     return ["module", node.module_name]
   if isinstance(node, pytd.TypeDeclUnit):
-    return ["unit"] + [sorted((norm(x, cls_stack) for x in getattr(node, f)), key=json.dumps)
+    return ["unit"] + [sorted((norm(x, cls_stack, inparam) for x in getattr(node, f)), key=json.dumps)
                        for f in ("constants", "type_params", "classes", "functions", "aliases")]
   if isinstance(node, msgspec.Struct):
     out = [type(node).__name__]
     for f in node.__struct_fields__:
-      out.append([f, norm(getattr(node, f), cls_stack)])
+      out.append([f, norm(getattr(node, f), cls_stack, inparam)])
     return out
   if isinstance(node, (tuple, list)):
-    return ["()"] + [norm(x, cls_stack) for x in node]
+    return ["()"] + [norm(x, cls_stack, inparam) for x in node]
   if isinstance(node, enum.Enum):
     return ["enum", node.name]
   if node is None:
@@ -341,3 +351,330 @@ def norm_unit(unit):
   imports = [a[1] for a in aliases if a[2][0] == "module" and a[2][1] == a[1]]
   decls = n[1:5] + [[a for a in aliases if not (a[2][0] == "module" and a[2][1] == a[1])]]
   return {"decls": decls, "imports": sorted(imports)}
+
+
+# ----------------------------------------------------------------------------------------------
+# generic walk, features (vacuity guards), documented deviations and their neutralisers (C05)
+
+def walk(node, parents=()):
+  """Yield (node, parents) for every msgspec node below `node` (ClassType.cls is not followed)."""
+  import msgspec
+  if isinstance(node, msgspec.Struct):
+    yield node, parents
+    if type(node).__name__ == "ClassType":
+      return
+    for f in node.__struct_fields__:
+      if f == "_name2item":
+        continue
+      yield from walk(getattr(node, f), parents + (node,))
+  elif isinstance(node, (tuple, list)):
+    for x in node:
+      yield from walk(x, parents)
+
+
+def features(ast):
+  """Which constructs of the dialect a stub exercises (dict of 0/1), for the vacuity guards."""
+  pytd = _pytd()
+  f = dict.fromkeys(("classes", "nested", "bases", "overloads", "generics", "typevars", "callables",
+                     "unions", "optionals", "literals", "tuples", "properties", "static_class",
+                     "defaults", "stars", "kwonly", "posonly", "aliases", "imports", "metaclass",
+                     "slots", "values", "nothing", "late", "flags", "generic_class", "decorators",
+                     "bounded_typevars"), 0)
+  for n, parents in walk(ast):
+    cn = type(n).__name__
+    if cn == "Class":
+      f["classes"] = 1
+      if any(type(p).__name__ == "Class" for p in parents):
+        f["nested"] = 1
+      if any(getattr(b, "name", "") not in ("builtins.object", "object") or isinstance(b, pytd.GenericType)
+             for b in n.bases):
+        f["bases"] = 1
+      if any(isinstance(b, pytd.GenericType) and b.base_type.name == "typing.Generic" for b in n.bases) \
+         or n.template:
+        f["generic_class"] = 1
+      if n.keywords:
+        f["metaclass"] = 1
+      if n.slots is not None:
+        f["slots"] = 1
+      if n.decorators:
+        f["decorators"] = 1
+    elif cn == "Function":
+      if len(n.signatures) > 1:
+        f["overloads"] = 1
+      if n.kind.name in ("STATICMETHOD", "CLASSMETHOD"):
+        f["static_class"] = 1
+      if n.kind.name == "PROPERTY":
+        f["properties"] = 1
+      if n.flags and n.flags != pytd.MethodFlag.NONE:
+        f["flags"] = 1
+      if getattr(n, "decorators", ()):
+        f["decorators"] = 1
+    elif cn == "Signature":
+      if n.starargs is not None or n.starstarargs is not None:
+        f["stars"] = 1
+    elif cn == "Parameter":
+      if n.optional:
+        f["defaults"] = 1
+      if n.kind.name == "KWONLY":
+        f["kwonly"] = 1
+      if n.kind.name == "POSONLY":
+        f["posonly"] = 1
+    elif cn == "Annotated":
+      if "'property'" in n.annotations:
+        f["properties"] = 1
+    elif cn in ("GenericType",):
+      base = getattr(n.base_type, "name", "")
+      if base == "typing.Callable":
+        f["callables"] = 1
+      elif base == "builtins.tuple":
+        f["tuples"] = 1
+      elif base != "typing.Generic":
+        f["generics"] = 1
+    elif cn == "CallableType":
+      f["callables"] = 1
+    elif cn == "TupleType":
+      f["tuples"] = 1
+    elif cn == "UnionType":
+      f["unions"] = 1
+      if any(getattr(t, "name", "") in ("builtins.NoneType", "NoneType") for t in n.type_list):
+        f["optionals"] = 1
+    elif cn == "Literal":
+      f["literals"] = 1
+    elif cn == "TypeParameter":
+      f["typevars"] = 1
+      if n.bound is not None or n.constraints:
+        f["bounded_typevars"] = 1
+    elif cn == "Alias":
+      if isinstance(n.type, pytd.Module):
+        f["imports"] = 1
+      else:
+        f["aliases"] = 1
+    elif cn == "Constant":
+      if n.value is not None and not any(type(p).__name__ == "Literal" for p in parents):
+        f["values"] = 1
+    elif cn == "NothingType":
+      f["nothing"] = 1
+    elif cn == "LateType":
+      f["late"] = 1
+  return f
+
+
+def _bool_int_clash(u):
+  """A union that holds a bool literal and the int literal equal to it (True/1, False/0)."""
+  pytd = _pytd()
+  bools, ints = set(), set()
+  for t in u.type_list:
+    if isinstance(t, pytd.Literal):
+      v = t.value
+      if isinstance(v, pytd.Constant) and v.name in ("builtins.True", "builtins.False"):
+        bools.add(1 if v.name.endswith("True") else 0)
+      elif isinstance(v, bool):
+        bools.add(int(v))
+      elif isinstance(v, int):
+        ints.add(v)
+  return bool(bools & ints)
+
+
+def _is_bool_literal(t):
+  pytd = _pytd()
+  return isinstance(t, pytd.Literal) and (
+      isinstance(t.value, bool) or
+      (isinstance(t.value, pytd.Constant) and t.value.name in ("builtins.True", "builtins.False")))
+
+
+def _reexport(c):
+  """Constant N: type[typing.N] - printed as `from typing import N` (printer.py)."""
+  pytd = _pytd()
+  t = c.type
+  return (isinstance(t, pytd.GenericType) and getattr(t.base_type, "name", "") == "builtins.type"
+          and len(t.parameters) == 1 and hasattr(t.parameters[0], "name")
+          and "." in t.parameters[0].name and t.parameters[0].name.rsplit(".", 1)[1] == c.name)
+
+
+def _default_before_required(sig):
+  seen = False
+  for p in sig.params:
+    if p.kind.name == "KWONLY":
+      break
+    if p.optional:
+      seen = True
+    elif seen:
+      return True
+  return False
+
+
+# name -> one-line statement of the documented deviation (the trigger each neutraliser removes)
+DEVIATIONS = {
+    "class-body-comprehension-leaks-.0":
+        "a class constant whose name is not an identifier (`.0`, the comprehension's iterator)",
+    "module-alias-requalified":
+        "`import m as n` next to a type that lives in module m (printed n.X, re-read as module n)",
+    "recursive-alias-unrolled":
+        "a LateType (reference to a recursive alias) - every parse substitutes the alias once more",
+    "generic-self-annotation-becomes-mutation":
+        "`self` annotated with a parameterised type - the parser reads it as a mutation of self",
+    "typing-self-desugared":
+        "a TypeParameter named Self - printed as typing.Self, re-read as a bound _SelfX TypeVar",
+    "reexported-typing-name-dropped":
+        "module constant N: type[typing.N] - printed as `from typing import N`, lost on re-read",
+    "default-before-required-parameter":
+        "a signature with a required positional parameter after one with a default",
+    "literal-bool-int-collapse":
+        "a Literal union with a bool and the equal int (True/1, False/0): members compare equal",
+}
+
+
+def deviations_present(ast):
+  pytd = _pytd()
+  out = set()
+  mod_aliases = {}
+  for a in ast.aliases:
+    if isinstance(a.type, pytd.Module) and a.type.module_name != a.name:
+      mod_aliases[a.type.module_name] = a.name
+  for n, parents in walk(ast):
+    cn = type(n).__name__
+    if cn == "Constant":
+      if not n.name.rsplit(".", 1)[-1].isidentifier() and any(type(p).__name__ == "Class" for p in parents):
+        out.add("class-body-comprehension-leaks-.0")
+      if len(parents) == 1 and _reexport(n):
+        out.add("reexported-typing-name-dropped")
+    elif cn in ("NamedType", "ClassType"):
+      if mod_aliases and any(n.name.startswith(m + ".") for m in mod_aliases):
+        out.add("module-alias-requalified")
+    elif cn == "LateType":
+      out.add("recursive-alias-unrolled")
+    elif cn == "Function":
+      if any(type(p).__name__ == "Class" for p in parents):
+        for s in n.signatures:
+          if s.params and s.params[0].name == "self" and isinstance(s.params[0].type, pytd.GenericType):
+            out.add("generic-self-annotation-becomes-mutation")
+    elif cn == "Signature":
+      if _default_before_required(n):
+        out.add("default-before-required-parameter")
+    elif cn == "TypeParameter":
+      if n.name == "Self":
+        out.add("typing-self-desugared")
+    elif cn == "UnionType":
+      if _bool_int_clash(n):
+        out.add("literal-bool-int-collapse")
+  return [d for d in DEVIATIONS if d in out]
+
+
+def neutralise(ast, names):
+  """The same stub without the triggers of the named deviations (counterfactual input)."""
+  pytd = _pytd()
+  from pytype.pytd import visitors
+  names = set(names)
+
+  class _N(visitors.Visitor):
+    """Bottom-up rewrite."""
+
+    def __init__(self):
+      super().__init__()
+      self.depth = 0
+
+    def EnterClass(self, _):  # pylint: disable=invalid-name
+      self.depth += 1
+
+    def LeaveClass(self, _):  # pylint: disable=invalid-name
+      self.depth -= 1
+
+    def VisitClass(self, c):  # pylint: disable=invalid-name
+      if "typing-self-desugared" in names:
+        c = c.Replace(template=tuple(t for t in c.template if isinstance(t.type_param, pytd.TypeParameter)))
+      if "class-body-comprehension-leaks-.0" in names:
+        c = c.Replace(constants=tuple(k for k in c.constants
+                                      if k.name.rsplit(".", 1)[-1].isidentifier()))
+      return c
+
+    def VisitLateType(self, t):  # pylint: disable=invalid-name
+      return pytd.AnythingType() if "recursive-alias-unrolled" in names else t
+
+    def VisitTypeParameter(self, t):  # pylint: disable=invalid-name
+      if "typing-self-desugared" in names and t.name == "Self":
+        return pytd.AnythingType()
+      return t
+
+    def VisitTemplateItem(self, t):  # pylint: disable=invalid-name
+      return t
+
+    def VisitSignature(self, s):  # pylint: disable=invalid-name
+      if "typing-self-desugared" in names:
+        s = s.Replace(template=tuple(t for t in s.template
+                                     if isinstance(t.type_param, pytd.TypeParameter)))
+      if ("generic-self-annotation-becomes-mutation" in names and self.depth and s.params
+          and s.params[0].name == "self" and isinstance(s.params[0].type, pytd.GenericType)):
+        s = s.Replace(params=(s.params[0].Replace(type=pytd.AnythingType()),) + s.params[1:])
+      if "default-before-required-parameter" in names and _default_before_required(s):
+        seen, ps = False, []
+        for p in s.params:
+          if p.kind.name != "KWONLY":
+            if p.optional:
+              seen = True
+            elif seen:
+              p = p.Replace(optional=True)
+          ps.append(p)
+        s = s.Replace(params=tuple(ps))
+      return s
+
+    def VisitUnionType(self, u):  # pylint: disable=invalid-name
+      if "literal-bool-int-collapse" in names and _bool_int_clash(u):
+        rest = tuple(t for t in u.type_list if not _is_bool_literal(t))
+        return rest[0] if len(rest) == 1 else pytd.UnionType(rest)
+      return u
+
+    def VisitTypeDeclUnit(self, u):  # pylint: disable=invalid-name
+      if "typing-self-desugared" in names:
+        u = u.Replace(type_params=tuple(t for t in u.type_params if isinstance(t, pytd.TypeParameter)))
+      if "module-alias-requalified" in names:
+        u = u.Replace(aliases=tuple(
+            a for a in u.aliases
+            if not (isinstance(a.type, pytd.Module) and a.type.module_name != a.name)))
+      if "reexported-typing-name-dropped" in names:
+        u = u.Replace(constants=tuple(c for c in u.constants if not _reexport(c)))
+      return u
+
+  return ast.Visit(_N())
+
+
+# ---- C12: documented deviations of the serialisation round trip and their neutralisers
+
+C12_DEVIATIONS = {
+    "alias-node-in-type-position":
+        "a pytd.Alias node where a type is expected (output.py emits Constant(sys, type=Alias(sys, "
+        "Module)) for `import sys` in a class body); msgpack encodes it, the typed decoder rejects it",
+}
+
+
+def c12_deviations_present(ast):
+  pytd = _pytd()
+  for n, parents in walk(ast):
+    if isinstance(n, pytd.Alias) and not (len(parents) == 1 and isinstance(parents[0], pytd.TypeDeclUnit)):
+      return ["alias-node-in-type-position"]
+  return []
+
+
+def c12_neutralise(ast, names):
+  pytd = _pytd()
+  from pytype.pytd import visitors
+
+  class _N(visitors.Visitor):
+    def __init__(self):
+      super().__init__()
+      self.ctx = 0
+
+    def _enter(self, _):
+      self.ctx += 1
+
+    def _leave(self, _):
+      self.ctx -= 1
+
+    EnterClass = EnterFunction = EnterConstant = _enter      # pylint: disable=invalid-name
+    LeaveClass = LeaveFunction = LeaveConstant = _leave      # pylint: disable=invalid-name
+
+    def VisitAlias(self, a):  # pylint: disable=invalid-name
+      if self.ctx and "alias-node-in-type-position" in names:
+        return pytd.NamedType("builtins.module")
+      return a
+
+  return ast.Visit(_N())
